@@ -40,6 +40,8 @@ def run(ctx, chk):
     r5(ctx, chk)
     local_spelling_rule(ctx, chk, "C02.R6")
     settings_forwarding_rule(ctx, chk, "C02.R7")
+    from .c04 import unit_spelling_rule
+    unit_spelling_rule(ctx, chk, "C02.R8")          # relativedelta(**{'ſeconds': 1}) is a TypeError that nothing catches
 
 
 def local_spelling_rule(ctx, chk, rule):
